@@ -1,17 +1,490 @@
-(* L3/SqrtProofs.v — proofs about the model of Sqrt (L3/Sqrt.v):
-   - special values (±0, +Inf, negative operands) for every receiver;
-   - the receiver's precision and rounding mode after Sqrt are the documented
-     ones whenever the model returns normally;
-   - an integer-square decision procedure for "M*10^q is the correctly rounded
-     p-digit square root of N*10^e" and a computed witness on which the model
-     (hence, by correspondence, the code) does not return it (finding K1). *)
-From Coq Require Import ZArith List Bool Lia.
-From Dec Require Import Base.Words L3.Decimal L3.Cmp L3.Round L3.Arith L3.Convert L3.Bin L3.Float L3.Sqrt
-  Spec.Rounding.
+(* L3/SqrtProofs.v — the repaired Sqrt (model L3/Sqrt.v) is correctly
+   rounded (C05).
+
+   The proof does not look at the Newton iteration: it only needs its output to
+   be a canonical positive finite Decimal whose exponent is not absurd.  The
+   correction loops of sqrtRound then move that value (given one more digit of
+   precision, so that every step is exact) on the grid of its last digit until z^2 <= x < (z + ulp)^2 (their exit conditions; running out of
+   fuel is a crash, excluded by the hypothesis that the model returns), a
+   half-ulp sticky digit is added when z^2 <> x, and one SetPrec performs the
+   single rounding. *)
+From Coq Require Import ZArith List Bool Lia QArith Qabs Lqa.
+From Dec Require Import Base.Words Base.WordsProofs Base.QPow L3.Decimal L3.Cmp L3.CmpProofs
+  L3.Round L3.Arith L3.Convert Spec.Rounding Spec.RoundingFacts L3.RoundProofs L3.ArithProofs
+  L3.ConvertProofs L3.AccProofs L4.Pow2Proofs Spec.SqrtSpec L3.SqrtLemmas L3.Sqrt.
 Open Scope Z_scope.
 
+Notation AddD := L3.Arith.Add.
+
 (* ------------------------------------------------------------------ *)
-(* precision and mode are untouched by round / setExpAndRound / Mul / SetMantExp *)
+(* small facts *)
+
+Lemma Qsgn_cmp_ext a a' b b' : (a == a')%Q -> (b == b')%Q -> Qsgn_cmp a b = Qsgn_cmp a' b'.
+Proof. intros Ha Hb. unfold Qsgn_cmp. now rewrite Ha, Hb. Qed.
+
+Lemma Qsgn_cmp_gt a b : Qsgn_cmp a b = 1 <-> (b < a)%Q.
+Proof. unfold Qsgn_cmp. rewrite Qgt_alt. destruct (a ?= b)%Q; split; intros; try congruence; lia. Qed.
+
+Lemma Qsgn_cmp_eq a b : Qsgn_cmp a b = 0 <-> (a == b)%Q.
+Proof. unfold Qsgn_cmp. rewrite Qeq_alt. destruct (a ?= b)%Q; split; intros; try congruence; lia. Qed.
+
+Lemma Qsgn_cmp_range a b : Qsgn_cmp a b = -1 \/ Qsgn_cmp a b = 0 \/ Qsgn_cmp a b = 1.
+Proof. unfold Qsgn_cmp. destruct (a ?= b)%Q; auto. Qed.
+
+Lemma value_pos_finite a : dform a = Ffinite -> neg a = false -> value a = XFin (mag a).
+Proof. intros F N. unfold value. now rewrite F, N. Qed.
+
+Lemma sval_pos a : neg a = false -> sval a = mag a.
+Proof. intros N. unfold sval. now rewrite N. Qed.
+
+Lemma WF_with_prec_up a P : WF a -> dform a = Ffinite -> prec a <= P <= MaxPrec -> WF (with_prec a P).
+Proof.
+  intros W F HP. pose proof (WF_finite a W F) as Ha.
+  pose proof (WF_reprec a P (dmode a) (acc a) Ha HP) as H. unfold with_prec. rewrite F. exact H.
+Qed.
+
+Lemma WF_with_mode a m : WF a -> WF (with_mode a m).
+Proof. unfold WF, wf_b. cbn [with_mode prec dform mant exp]. auto. Qed.
+
+(* exponent of a canonical value from bounds on its magnitude *)
+Lemma exp_range a lo hi : WF a -> dform a = Ffinite ->
+  (scaled 1 lo <= mag a)%Q -> (mag a < scaled 1 hi)%Q -> lo < exp a <= hi.
+Proof.
+  intros W F Hlo Hhi. pose proof (mag_bounds a (WF_finite a W F)) as [B1 B2]. split.
+  - apply scaled1_lt_inv. lra.
+  - assert (exp a - 1 < hi) by (apply scaled1_lt_inv; lra). lia.
+Qed.
+
+(* ------------------------------------------------------------------ *)
+(* the correction loops *)
+
+Section Loops.
+  Variables (eu P pm : Z) (x : Dec).
+  Hypothesis HP : 3 <= P <= 1000000003.
+  Hypothesis Hpm : 0 <= pm <= P.
+  Hypothesis Heu1 : - 1073741000 <= eu.
+  Hypothesis Heu2 : eu + P <= 2000.
+  Hypothesis Wx : WF x.
+  Hypothesis Fx : dform x = Ffinite.
+  Hypothesis Nx : neg x = false.
+
+  Let ulp := dconst 1 eu.
+  Let psq := 2 * P + 2.
+  Let pt := P + 1.
+  Let kmin := 10 ^ pm.
+  (* the root is at least kmin grid units *)
+  Hypothesis Hroot : (scaled (kmin * kmin) (2 * eu) <= mag x)%Q.
+
+  Lemma kmin_pos : 1 <= kmin.
+  Proof. unfold kmin. assert (0 < 10 ^ pm) by (apply pow10_pos; lia). lia. Qed.
+  Lemma kmin_le : kmin <= 10 ^ P.
+  Proof. unfold kmin. apply Z.pow_le_mono_r; lia. Qed.
+
+  Lemma ulp_facts : WF ulp /\ dform ulp = Ffinite /\ neg ulp = false /\
+    (mag ulp == scaled 1 eu)%Q /\ mdigits (mant ulp) = 19 /\ exp ulp = eu + 1.
+  Proof. apply dconst_facts; unfold MinExp, MaxExp; lia. Qed.
+
+  (* a canonical positive value of k grid units *)
+  Record OnGrid (D k : Z) (a : Dec) : Prop := {
+    og_wf : WF a; og_fin : dform a = Ffinite; og_neg : neg a = false;
+    og_mag : (mag a == scaled k eu)%Q;
+    og_len : mdigits (mant a) <= P + D;
+    og_k : 1 <= k <= 10 ^ P + 1
+  }.
+
+  Lemma OnGrid_exp D k a : OnGrid D k a -> eu < exp a <= eu + P + 1.
+  Proof.
+    intros [W F N M L K]. apply (exp_range a eu (eu + P + 1) W F).
+    - rewrite M. apply scaled_le_same. lia.
+    - replace (eu + P + 1) with (eu + (P + 1)) by lia.
+      rewrite M, <- (scaled_pow10 (P + 1) eu) by lia. apply scaled_lt_same.
+      rewrite Z.pow_add_r by lia. assert (0 < 10 ^ P) by (apply pow10_pos; lia). lia.
+  Qed.
+
+  Lemma OnGrid_span D k a : 0 <= D <= 30 -> OnGrid D k a -> add_span a ulp + 40 < 4294967296 - 18.
+  Proof.
+    intros HD G. pose proof (OnGrid_exp D k a G) as He. destruct G as [W F N M L K].
+    destruct ulp_facts as (_ & _ & _ & _ & Lu & Eu).
+    destruct (WFfin_len a (WF_finite a W F)) as [Hl1 Hl2].
+    unfold add_span. rewrite Lu, Eu. clear - HP HD He L Hl1 Hl2. lia.
+  Qed.
+
+  (* squares on the grid are exact at precision 2P+2, so Cmp decides z^2 ? x *)
+  Lemma square_cmp D k a : 0 <= D <= 30 -> OnGrid D k a ->
+    exists sq, Mul (tmpDec psq) a a = OkR sq /\
+      Cmp sq x = Qsgn_cmp (scaled (k * k) (2 * eu)) (mag x).
+  Proof.
+    intros HD [W F N M L K].
+    destruct (Mul_correct (tmpDec psq) a a W W F F) as (sq & E & Sp & Pr & Md & Wsq).
+    { cbn [prec tmpDec]. unfold psq, MaxPrec. lia. }
+    { clear - HP HD L. lia. }
+    exists sq. split; [exact E|].
+    assert (Ep : eff_prec (tmpDec psq) a a = psq).
+    { unfold eff_prec. cbn [prec tmpDec]. destruct (Z.eqb_spec psq 0); [unfold psq in *; lia|reflexivity]. }
+    rewrite Ep, N in Sp. cbn [xorb] in Sp.
+    assert (P10 : 0 < 10 ^ P) by (apply pow10_pos; lia).
+    assert (Ev : (mag a * mag a == scaled (k * k) (2 * eu))%Q).
+    { rewrite M, scaled_mul. replace (eu + eu) with (2 * eu) by lia. reflexivity. }
+    assert (A1 : 1 <= psq) by (unfold psq; lia).
+    assert (A2 : 1 <= k * k <= 10 ^ psq).
+    { split; [nia|]. unfold psq. replace (2 * P + 2) with (P + P + 2) by lia.
+      rewrite !Z.pow_add_r by lia. change (10 ^ 2) with 100. nia. }
+    assert (A3 : MinExp <= 2 * eu) by (unfold MinExp; lia).
+    assert (A4 : 2 * eu + psq < MaxExp) by (unfold psq, MaxExp; lia).
+    destruct (exact_le psq _ false _ sq (k * k) (2 * eu) A1 A2 Ev A3 A4 Sp) as (Fs & Ms & As & Ns).
+    rewrite (Cmp_correct sq x Wsq Wx), (value_pos_finite sq Fs Ns), (value_pos_finite x Fx Nx).
+    cbn [xcmp]. apply Qsgn_cmp_ext; [rewrite Ms; exact Ev|reflexivity].
+  Qed.
+
+  (* the state of the receiver during the loops *)
+  Record Grid (k : Z) (z : Dec) : Prop := {
+    g_on : OnGrid 18 k z;
+    g_prec : prec z = P;
+    g_k : kmin <= k <= 10 ^ P
+  }.
+
+  (* sq.Mul(z, z).Cmp(x) > 0 { z.Sub(z, ulp) }: on exit z^2 <= x *)
+  Lemma sqrt_down_exit fuel : forall z k r, Grid k z ->
+    sqrt_down fuel psq z x ulp = OkR r ->
+    exists k', Grid k' r /\ k' <= k /\ (scaled (k' * k') (2 * eu) <= mag x)%Q.
+  Proof.
+    induction fuel as [|fuel IH]; intros z k r G H; [discriminate|].
+    cbn [sqrt_down] in H.
+    destruct (square_cmp 18 k z ltac:(lia) (g_on k z G)) as (sq & Esq & Ec).
+    rewrite Esq in H. cbn [bindT] in H. rewrite Ec in H.
+    destruct (Z.eqb_spec (Qsgn_cmp (scaled (k * k) (2 * eu)) (mag x)) 1) as [C|C].
+    - (* z^2 > x: one unit down *)
+      apply Qsgn_cmp_gt in C.
+      pose proof kmin_pos as Km. destruct G as [[W F N M L K] Pz Kz].
+      assert (Hk : kmin < k).
+      { assert (X : (scaled (kmin * kmin) (2 * eu) < scaled (k * k) (2 * eu))%Q) by lra.
+        apply scaled_lt_same in X. clear - X Km Kz. nia. }
+      destruct ulp_facts as (Wu & Fu & Nu & Mu & Lu & Eu).
+      pose proof (OnGrid_span 18 k z ltac:(lia) (Build_OnGrid 18 k z W F N M L K)) as Hsp.
+      destruct (Sub_correct true false z z ulp W Wu F Fu ltac:(rewrite Pz; unfold MaxPrec; lia) Hsp)
+        as (z' & E & Pz' & Mz' & W' & _ & H1).
+      assert (Ep : eff_prec z z ulp = P).
+      { unfold eff_prec. rewrite Pz. destruct (Z.eqb_spec P 0); [lia|reflexivity]. }
+      rewrite Ep in *.
+      assert (Eq : (sval z - sval ulp == scaled (k - 1) eu)%Q).
+      { rewrite (sval_pos z N), (sval_pos ulp Nu), M, Mu. unfold Qminus. rewrite scaled_opp, <- scaled_add.
+        apply scaled_eq_same. lia. }
+      assert (Qp : (0 < sval z - sval ulp)%Q) by (rewrite Eq; apply scaled_pos; lia).
+      destruct (qneg_pos _ Qp) as [Qn Qa].
+      assert (Qnz : ~ (sval z - sval ulp == 0)%Q) by (intros X; rewrite X in Qp; exact (Qlt_irrefl 0 Qp)).
+      specialize (H1 Qnz). rewrite Qn in H1.
+      assert (A1 : 1 <= P) by lia.
+      assert (A2 : 1 <= k - 1 <= 10 ^ P) by lia.
+      assert (A3 : (Qabs (sval z - sval ulp) == scaled (k - 1) eu)%Q) by (rewrite Qa; exact Eq).
+      assert (A4 : MinExp <= eu) by (unfold MinExp; lia).
+      assert (A5 : eu + P < MaxExp) by (unfold MaxExp; lia).
+      destruct (exact_le P _ false _ z' (k - 1) eu A1 A2 A3 A4 A5 H1) as (F' & M' & A' & N').
+      rewrite E in H. cbn [bindR] in H.
+      destruct (IH z' (k - 1) r) as (k' & G' & Hk' & B'); [|exact H|exists k'; split; [exact G'|split; [lia|exact B']]].
+      constructor; [constructor| |]; try assumption; try lia.
+      + rewrite M', Qa. exact Eq.
+      + rewrite <- Pz.
+        assert (Pz2 : 1 <= prec z <= MaxPrec - 18) by (rewrite Pz; unfold MaxPrec; lia).
+        exact (Sub_finite_len true false z z ulp z' W Wu F Fu Pz2 Hsp E F').
+    - (* exit *)
+      injection H as <-. exists k. split; [exact G|]. split; [lia|].
+      apply Qsgn_cmp_le. destruct (Qsgn_cmp_range (scaled (k * k) (2 * eu)) (mag x)) as [X|[X|X]]; lia.
+  Qed.
+  (* t.Add(z, ulp) is exact at precision P+1 *)
+  Lemma add_ulp k z : Grid k z ->
+    exists t, AddD false false (tmpDec pt) z ulp = OkR t /\ OnGrid 19 (k + 1) t /\ prec t = pt.
+  Proof.
+    intros [[W F N M L K] Pz Kz]. pose proof kmin_pos as Km.
+    destruct ulp_facts as (Wu & Fu & Nu & Mu & Lu & Eu).
+    pose proof (OnGrid_span 18 k z ltac:(lia) (Build_OnGrid 18 k z W F N M L K)) as Hsp.
+    assert (Pt : 0 <= prec (tmpDec pt) <= MaxPrec) by (cbn [prec tmpDec]; unfold pt, MaxPrec; lia).
+    destruct (Add_correct false false (tmpDec pt) z ulp W Wu F Fu Pt Hsp) as (t & E & Pt' & Mt' & Wt & _ & H1).
+    assert (Ep : eff_prec (tmpDec pt) z ulp = pt).
+    { unfold eff_prec. cbn [prec tmpDec]. destruct (Z.eqb_spec pt 0); [unfold pt in *; lia|reflexivity]. }
+    rewrite Ep in *.
+    assert (Eq : (sval z + sval ulp == scaled (k + 1) eu)%Q).
+    { rewrite (sval_pos z N), (sval_pos ulp Nu), M, Mu, <- scaled_add. reflexivity. }
+    assert (Qp : (0 < sval z + sval ulp)%Q) by (rewrite Eq; apply scaled_pos; lia).
+    destruct (qneg_pos _ Qp) as [Qn Qa].
+    assert (Qnz : ~ (sval z + sval ulp == 0)%Q) by (intros X; rewrite X in Qp; exact (Qlt_irrefl 0 Qp)).
+    specialize (H1 Qnz). rewrite Qn in H1.
+    assert (P10 : 0 < 10 ^ P) by (apply pow10_pos; lia).
+    assert (A1 : 1 <= pt) by (unfold pt; lia).
+    assert (A2 : 1 <= k + 1 <= 10 ^ pt).
+    { unfold pt. rewrite Z.pow_add_r by lia. lia. }
+    assert (A3 : (Qabs (sval z + sval ulp) == scaled (k + 1) eu)%Q) by (rewrite Qa; exact Eq).
+    assert (A4 : MinExp <= eu) by (unfold MinExp; lia).
+    assert (A5 : eu + pt < MaxExp) by (unfold pt, MaxExp; lia).
+    destruct (exact_le pt _ false _ t (k + 1) eu A1 A2 A3 A4 A5 H1) as (F' & M' & A' & N').
+    exists t. split; [exact E|]. split; [|exact Pt'].
+    constructor; try assumption; try lia.
+    - rewrite M'. exact A3.
+    - replace (P + 19) with (prec (tmpDec pt) + 18) by (cbn [prec tmpDec]; unfold pt; lia).
+      assert (Pt2 : 1 <= prec (tmpDec pt) <= MaxPrec - 18) by (cbn [prec tmpDec]; unfold pt, MaxPrec; lia).
+      exact (Add_finite_len false false (tmpDec pt) z ulp t W Wu F Fu Pt2 Hsp E F').
+  Qed.
+
+  (* z.Set(t) is exact as long as k + 1 fits the precision *)
+  Lemma set_next k z t : Grid k z -> OnGrid 19 (k + 1) t -> prec t = pt -> k + 1 <= 10 ^ P ->
+    exists z', Set_ false z t = OkR z' /\ Grid (k + 1) z'.
+  Proof.
+    intros [[W F N M L K] Pz Kz] [Wt Ft Nt Mt Lt Kt] Pt Hfit. pose proof kmin_pos as Km.
+    assert (Pz' : 0 <= prec z <= MaxPrec) by (rewrite Pz; unfold MaxPrec; lia).
+    destruct (Set_correct false z t Wt Ft ltac:(clear - Lt HP; lia) Pz' ltac:(discriminate))
+      as (z' & E & Sp & Pr & Md & W').
+    replace (if prec z =? 0 then prec t else prec z) with P in *
+      by (rewrite Pz; destruct (Z.eqb_spec P 0); [lia|reflexivity]).
+    rewrite Nt in *.
+    assert (A4 : MinExp <= eu) by (unfold MinExp; lia).
+    destruct (exact_le P _ false _ z' (k + 1) eu ltac:(lia) ltac:(lia) Mt A4 ltac:(unfold MaxExp; lia) Sp)
+      as (F' & M' & A' & N').
+    exists z'. split; [exact E|].
+    constructor; [constructor| |]; try assumption; try lia.
+    - rewrite M'. exact Mt.
+    - rewrite <- Pz.
+      assert (Pz2 : 1 <= prec z <= MaxPrec - 18) by (rewrite Pz; unfold MaxPrec; lia).
+      assert (Pz3 : prec z < prec t) by (rewrite Pz, Pt; unfold pt; lia).
+      assert (Lt3 : mdigits (mant t) < 4294967296) by (clear - Lt HP; lia).
+      exact (Set_finite_len z t z' Ft Pz2 Pz3 Lt3 E F').
+  Qed.
+
+  (* sq.Mul(t.Add(z, ulp), t).Cmp(x) <= 0 { z.Set(t) }: on exit z^2 <= x < (z+ulp)^2;
+     fewer steps than the room left in the precision, so every z.Set(t) is exact *)
+  Lemma sqrt_up_exit fuel : forall z k r, Grid k z ->
+    k + Z.of_nat fuel <= 10 ^ P ->
+    (scaled (k * k) (2 * eu) <= mag x)%Q ->
+    sqrt_up fuel psq pt z x ulp = OkR r ->
+    exists k', Grid k' r /\ (scaled (k' * k') (2 * eu) <= mag x)%Q /\
+               (mag x < scaled ((k' + 1) * (k' + 1)) (2 * eu))%Q.
+  Proof.
+    induction fuel as [|fuel IH]; intros z k r G Hfuel Hle H; [discriminate|].
+    cbn [sqrt_up] in H.
+    destruct (add_ulp k z G) as (t & Et & Gt & Pt).
+    rewrite Et in H. cbn [bindT] in H.
+    destruct (square_cmp 19 (k + 1) t ltac:(lia) Gt) as (sq & Esq & Ec).
+    rewrite Esq in H. cbn [bindT] in H. rewrite Ec in H.
+    destruct (Z.leb_spec (Qsgn_cmp (scaled ((k + 1) * (k + 1)) (2 * eu)) (mag x)) 0) as [C|C].
+    - apply Qsgn_cmp_le in C.
+      destruct (set_next k z t G Gt Pt ltac:(lia)) as (z' & Es & G').
+      rewrite Es in H. cbn [bindR] in H.
+      apply (IH z' _ r G'); [lia|exact C|exact H].
+    - injection H as <-. exists k. split; [exact G|]. split; [exact Hle|].
+      apply Qsgn_cmp_gt.
+      destruct (Qsgn_cmp_range (scaled ((k + 1) * (k + 1)) (2 * eu)) (mag x)) as [X|[X|X]]; lia.
+  Qed.
+End Loops.
+
+(* ------------------------------------------------------------------ *)
+(* a canonical value is an integer number of units of its last digit *)
+Lemma WF_on_grid a : WFfin a ->
+  exists k, 10 ^ (prec a - 1) <= k < 10 ^ prec a /\ (mag a == scaled k (exp a - prec a))%Q.
+Proof.
+  intros Ha. pose proof (WFfin_val_bounds a Ha) as HN.
+  destruct (WFfin_len a Ha) as [Hl1 Hl2].
+  destruct Ha as [Hne Hok Htop Hprec Hexp Htail].
+  set (L := mdigits (mant a)) in *. set (N := val (mant a)) in *. set (p := prec a) in *.
+  unfold mag. fold N L.
+  destruct (Z.le_gt_cases L p) as [C|C].
+  - exists (N * 10 ^ (p - L)). split.
+    + assert (0 < 10 ^ (p - L)) by (apply pow10_pos; lia).
+      assert (X1 : 10 ^ (p - 1) = 10 ^ (L - 1) * 10 ^ (p - L)) by (rewrite <- Z.pow_add_r by lia; f_equal; lia).
+      assert (X2 : 10 ^ p = 10 ^ L * 10 ^ (p - L)) by (rewrite <- Z.pow_add_r by lia; f_equal; lia).
+      rewrite X1, X2. clear - HN H. nia.
+    + rewrite scaled_pow by lia. replace (exp a - p + (p - L)) with (exp a - L) by lia. reflexivity.
+  - assert (Hmod : N mod 10 ^ (L - p) = 0) by (destruct Htail as [T|T]; [lia|exact T]).
+    set (j := L - p) in *. assert (Hj : 1 <= j) by (unfold j; lia).
+    assert (HP : 0 < 10 ^ j) by (apply pow10_pos; lia).
+    set (N' := N / 10 ^ j).
+    assert (EN : N = N' * 10 ^ j).
+    { unfold N'. rewrite (Z.div_mod N (10 ^ j)) at 1 by lia. rewrite Hmod. ring. }
+    exists N'. split.
+    + replace L with (p + j) in HN by (unfold j; lia). rewrite EN in HN.
+      replace (p + j - 1) with (p - 1 + j) in HN by lia. rewrite !Z.pow_add_r in HN by lia. nia.
+    + rewrite EN, scaled_pow by lia. replace (exp a - L + j) with (exp a - p) by (unfold j; lia). reflexivity.
+Qed.
+
+Lemma acc_of_cmp r v v' : (r ?= v)%Q = (r ?= v')%Q -> acc_of false r v = acc_of false r v'.
+Proof. intros H. unfold acc_of. now rewrite H. Qed.
+
+(* ------------------------------------------------------------------ *)
+(* sqrtRound: from any canonical positive approximation z with p + 2 digits
+   whose exponent is at most two above the root's, to sqrt(x) rounded once to p
+   digits under md.  P = p + 2 is the incoming precision, the grid unit is
+   10^(exp z - P), the loops run at precision Q = P + 1. *)
+Theorem sqrtRound_correct z x p md r :
+  WF z -> dform z = Ffinite -> neg z = false -> prec z = p + 2 ->
+  mdigits (mant z) <= prec z + 18 ->
+  1 <= p <= 1000000000 -> - 1000000 <= exp z <= 1000 ->
+  WF x -> dform x = Ffinite -> neg x = false ->
+  (scaled 1 (2 * (exp z - 2)) <= mag x)%Q ->
+  sqrtRound z x p md = OkR r ->
+  WF r /\ dform r = Ffinite /\ neg r = false /\ prec r = p /\ dmode r = md /\
+  IsSqrtRounding md p (mag x) r /\
+  (scaled 1 (exp z - 2) <= mag r)%Q /\ (mag r <= scaled 1 (exp z + 2))%Q /\
+  mdigits (mant r) <= p + 23.
+Proof.
+  intros Wz Fz Nz Pz Lz Hp He Wx Fx Nx Hroot H.
+  set (P := p + 2) in *. set (Q := P + 1). set (eu := exp z - P).
+  assert (HQ : 3 <= Q <= 1000000003) by (unfold Q, P; lia).
+  assert (Hpm : 0 <= p <= Q) by (unfold Q, P; lia).
+  assert (Heu1 : - 1073741000 <= eu) by (unfold eu, P; lia).
+  assert (Heu2 : eu + Q <= 2000) by (unfold eu, Q; lia).
+  assert (Pp : 0 < 10 ^ p) by (apply pow10_pos; lia).
+  assert (PP : 0 < 10 ^ P) by (apply pow10_pos; unfold P; lia).
+  assert (EQ : 10 ^ Q = 10 * 10 ^ P).
+  { unfold Q. rewrite Z.pow_add_r by (unfold P; lia). change (10 ^ 1) with 10. lia. }
+  assert (Hroot' : (scaled (10 ^ p * 10 ^ p) (2 * eu) <= mag x)%Q).
+  { rewrite <- Z.pow_add_r, scaled_pow10 by lia.
+    replace (2 * eu + (p + p)) with (2 * (exp z - 2)) by (unfold eu, P; lia). exact Hroot. }
+  (* unfold the body *)
+  set (zq := with_prec z Q).
+  assert (Hunf : sqrtRound z x p md =
+    bindR (sqrt_down sqrt_fuel (2 * Q + 2) zq x (dconst 1 eu)) (fun z =>
+    bindR (sqrt_up sqrt_fuel (2 * Q + 2) (Q + 1) z x (dconst 1 eu)) (fun z =>
+    bindT z (Mul (tmpDec (2 * Q + 2)) z z) (fun sq =>
+    bindR (if Cmp sq x =? 0 then OkR z
+           else AddD true false (with_prec z (u32 (prec z + 2))) (with_prec z (u32 (prec z + 2))) (dconst 5 (eu - 1))) (fun z =>
+    SetPrec (with_mode z md) p))))).
+  { unfold sqrtRound. rewrite Pz.
+    rewrite (NewDecimal_1 (exp z - P)) by (unfold MinExp, MaxExp; lia).
+    rewrite (NewDecimal_5 (exp z - P - 1)) by (unfold MinExp, MaxExp; lia).
+    cbn [ores_get]. cbv zeta. cbn [prec with_prec].
+    rewrite (u32_small (P + 1)) by (unfold P; lia). fold Q. fold zq.
+    destruct (Z.ltb_spec MaxPrec (2 * Q + 2)) as [C|_]; [unfold MaxPrec in C; lia|].
+    destruct (Z.ltb_spec MaxPrec (Q + 1)) as [C|_]; [unfold MaxPrec in C; lia|].
+    unfold dconst, eu. replace (exp z - P - 1 + 1) with (exp z - P) by lia. reflexivity. }
+  rewrite Hunf in H. clear Hunf.
+  (* the starting point is on the grid *)
+  destruct (WF_on_grid z (WF_finite z Wz Fz)) as (k0 & Hk0 & Mk0).
+  rewrite Pz in Hk0, Mk0. fold eu in Mk0.
+  assert (E1 : 10 ^ P = 10 * 10 ^ (P - 1)).
+  { replace P with (1 + (P - 1)) at 1 by (unfold P; lia). rewrite Z.pow_add_r by (unfold P; lia). reflexivity. }
+  assert (E2 : 10 ^ (P - 1) = 10 * 10 ^ p).
+  { replace (P - 1) with (1 + p) by (unfold P; lia). rewrite Z.pow_add_r by lia. reflexivity. }
+  assert (Wq : WF zq) by (apply WF_with_prec_up; [exact Wz|exact Fz|rewrite Pz; unfold Q, MaxPrec; lia]).
+  assert (G0 : Grid eu Q p k0 zq).
+  { constructor; [constructor| |]; try assumption; try reflexivity; try lia.
+    cbn [zq mant with_prec]. unfold Q. lia. }
+  destruct (sqrt_down sqrt_fuel (2 * Q + 2) zq x (dconst 1 eu)) as [z1| |] eqn:Ed; try discriminate.
+  cbn [bindR] in H.
+  destruct (sqrt_down_exit eu Q p x HQ Hpm Heu1 Heu2 Wx Fx Nx Hroot' sqrt_fuel zq k0 z1 G0 Ed) as (k1 & G1 & Hk1 & B1).
+  destruct (sqrt_up sqrt_fuel (2 * Q + 2) (Q + 1) z1 x (dconst 1 eu)) as [z2| |] eqn:Eu; try discriminate.
+  cbn [bindR] in H.
+  assert (Hfuel : k1 + Z.of_nat sqrt_fuel <= 10 ^ Q).
+  { change (Z.of_nat sqrt_fuel) with 200.
+    assert (100 <= 10 ^ P) by (rewrite E1, E2; lia). lia. }
+  destruct (sqrt_up_exit eu Q p x HQ Hpm Heu1 Heu2 Wx Fx Nx sqrt_fuel z1 k1 z2 G1 Hfuel B1 Eu) as (k & G & Blo & Bhi).
+  clear Ed Eu G0 G1 B1 Mk0 Hk0 Hk1 Hfuel k0 z1 k1.
+  (* z2 = k grid units, (k u)^2 <= x < ((k+1) u)^2 *)
+  destruct (square_cmp eu Q p x HQ Hpm Heu1 Heu2 Wx Fx Nx 18 k z2 ltac:(lia) (g_on _ _ _ _ _ G)) as (sq & Esq & Ec).
+  rewrite Esq in H. cbn [bindT] in H. rewrite Ec in H.
+  destruct G as [[W2 F2 N2 M2 L2 K2] P2 Kk].
+  assert (Hlo0 : (scaled 1 (exp z - 2) <= scaled k eu)%Q).
+  { replace (exp z - 2) with (eu + p) by (unfold eu, P; lia). rewrite <- scaled_pow10 by lia.
+    apply scaled_le_same. lia. }
+  assert (Hhi0 : (scaled (k + 1) eu <= scaled 1 (exp z + 2))%Q).
+  { replace (exp z + 2) with (eu + (Q + 1)) by (unfold eu, Q; lia). rewrite <- scaled_pow10 by lia.
+    apply scaled_le_same. rewrite Z.pow_add_r by lia. lia. }
+  assert (Hmin : (scaled 1 (MinExp - 1) <= scaled 1 (exp z - 2))%Q) by (apply scaled1_le; unfold MinExp; lia).
+  assert (HK : exp z + 2 < MaxExp) by (unfold MaxExp; lia).
+  assert (Hsq : forall a, (scaled a eu * scaled a eu == scaled (a * a) (2 * eu))%Q).
+  { intros a. rewrite scaled_mul. replace (eu + eu) with (2 * eu) by lia. reflexivity. }
+  destruct (Z.eqb_spec (Qsgn_cmp (scaled (k * k) (2 * eu)) (mag x)) 0) as [C|C].
+  - (* z2^2 = x: the root is z2 itself *)
+    apply Qsgn_cmp_eq in C. cbn [bindR] in H.
+    set (z3 := with_mode z2 md) in *.
+    assert (W3 : WF z3) by (apply WF_with_mode; exact W2).
+    destruct (SetPrec_correct z3 p W3 F2 ltac:(cbn [z3 mant with_mode]; clear - L2 HQ; lia) ltac:(lia))
+      as (r' & E & Sp & Pr & Mr & Wr).
+    rewrite H in E. injection E as <-.
+    replace (if MaxPrec <? p then MaxPrec else p) with p in *
+      by (destruct (Z.ltb_spec MaxPrec p) as [X|X]; [unfold MaxPrec in X; lia|reflexivity]).
+    cbn [z3 dmode neg with_mode] in *. rewrite N2 in Sp.
+    assert (Em : mag z3 = mag z2) by reflexivity. rewrite Em in Sp.
+    destruct (result_spec_RoundedTo p md (mag z2) (exp z + 2) r ltac:(lia)) as (Fr & Nr & Rr & Ur); try assumption.
+    { rewrite M2. lra. }
+    { rewrite M2. apply Qle_trans with (scaled (k + 1) eu); [apply scaled_le_same; lia|exact Hhi0]. }
+    split; [exact Wr|]. split; [exact Fr|]. split; [exact Nr|]. split; [exact Pr|]. split; [exact Mr|].
+    split; [|split; [|split; [exact Ur|]]].
+    + left. exists (mag z2). split; [rewrite M2, <- (scaled_0 eu); apply scaled_le_same; lia|].
+      split; [rewrite M2, Hsq; exact C|exact Rr].
+    + destruct Rr as [Rr _]. apply (rounds_ge md false p (mag z2)); [lia|exact Rr|rewrite M2; exact Hlo0].
+    + apply SetPrec_len in H. cbn [z3 mant with_mode] in H. unfold mdigits in *. cbv [DW] in *. clear - H L2 HQ. unfold Q, P in *. lia.
+  - (* z2^2 < x: add the sticky half unit at two more digits, then round *)
+    assert (Blo' : (scaled (k * k) (2 * eu) < mag x)%Q).
+    { apply Qle_lt_or_eq in Blo as [X|X]; [exact X|]. exfalso. apply C. apply Qsgn_cmp_eq. exact X. }
+    rewrite P2 in H. rewrite (u32_small (Q + 2)) in H by lia.
+    set (z2' := with_prec z2 (Q + 2)) in *.
+    assert (W2' : WF z2') by (apply WF_with_prec_up; [exact W2|exact F2|rewrite P2; unfold MaxPrec; lia]).
+    destruct (dconst_facts 5 (eu - 1) ltac:(lia) ltac:(unfold MinExp, MaxExp; lia)) as (Wh & Fh & Nh & Mh & Lh & Eh).
+    set (half := dconst 5 (eu - 1)) in *.
+    pose proof (OnGrid_exp eu Q p HQ Hpm 18 k z2 (Build_OnGrid eu Q 18 k z2 W2 F2 N2 M2 L2 K2)) as Hexp.
+    assert (Hsp : add_span z2' half + 40 < 4294967296 - 18).
+    { destruct (WFfin_len z2 (WF_finite z2 W2 F2)) as [Hl1 Hl2].
+      unfold add_span. rewrite Lh, Eh. cbn [z2' mant exp with_prec]. clear - HQ Hexp L2 Hl1 Hl2. lia. }
+    assert (Pz2 : 0 <= prec z2' <= MaxPrec) by (cbn [z2' prec with_prec]; unfold MaxPrec; lia).
+    destruct (Add_correct true false z2' z2' half W2' Wh F2 Fh Pz2 Hsp) as (z3 & E3 & P3 & Md3 & W3 & _ & H3).
+    assert (Ep : eff_prec z2' z2' half = Q + 2).
+    { unfold eff_prec. cbn [z2' prec with_prec]. destruct (Z.eqb_spec (Q + 2) 0); [lia|reflexivity]. }
+    rewrite Ep in *.
+    assert (Eq : (sval z2' + sval half == scaled (10 * k + 5) (eu - 1))%Q).
+    { rewrite (sval_pos z2' N2), (sval_pos half Nh), Mh.
+      assert (X : mag z2' = mag z2) by reflexivity. rewrite X, M2.
+      assert (Y : (scaled k eu == scaled (10 * k) (eu - 1))%Q).
+      { apply (scaled_eq_gen _ _ _ _ (eu - 1)); try lia. replace (eu - (eu - 1)) with 1 by lia.
+        rewrite Z.sub_diag, Z.pow_0_r, Z.pow_1_r. lia. }
+      rewrite Y, <- scaled_add. reflexivity. }
+    assert (Qp : (0 < sval z2' + sval half)%Q) by (rewrite Eq; apply scaled_pos; lia).
+    destruct (qneg_pos _ Qp) as [Qn Qa].
+    assert (Qnz : ~ (sval z2' + sval half == 0)%Q) by (intros X; rewrite X in Qp; exact (Qlt_irrefl 0 Qp)).
+    specialize (H3 Qnz). rewrite Qn in H3.
+    assert (A1 : 1 <= Q + 2) by lia.
+    assert (A2 : 1 <= 10 * k + 5 <= 10 ^ (Q + 2)).
+    { rewrite Z.pow_add_r by lia. change (10 ^ 2) with 100. lia. }
+    assert (A3 : (Qabs (sval z2' + sval half) == scaled (10 * k + 5) (eu - 1))%Q) by (rewrite Qa; exact Eq).
+    assert (A4 : MinExp <= eu - 1) by (unfold MinExp; lia).
+    assert (A5 : eu - 1 + (Q + 2) < MaxExp) by (unfold MaxExp; lia).
+    destruct (exact_le (Q + 2) _ false _ z3 (10 * k + 5) (eu - 1) A1 A2 A3 A4 A5 H3) as (F3 & M3 & _ & N3).
+    rewrite A3 in M3.
+    assert (L3 : mdigits (mant z3) <= Q + 2 + 18).
+    { assert (Pz3 : 1 <= prec z2' <= MaxPrec - 18) by (cbn [z2' prec with_prec]; unfold MaxPrec; lia).
+      exact (Add_finite_len true false z2' z2' half z3 W2' Wh F2 Fh Pz3 Hsp E3 F3). }
+    rewrite E3 in H. cbn [bindR] in H.
+    set (z4 := with_mode z3 md) in *.
+    assert (W4 : WF z4) by (apply WF_with_mode; exact W3).
+    destruct (SetPrec_correct z4 p W4 F3 ltac:(cbn [z4 mant with_mode]; clear - L3 HQ; lia) ltac:(lia))
+      as (r' & E & Sp & Pr & Mr & Wr).
+    rewrite H in E. injection E as <-.
+    replace (if MaxPrec <? p then MaxPrec else p) with p in *
+      by (destruct (Z.ltb_spec MaxPrec p) as [X|X]; [unfold MaxPrec in X; lia|reflexivity]).
+    cbn [z4 dmode neg with_mode] in *. rewrite N3 in Sp.
+    assert (Em : mag z4 = mag z3) by reflexivity. rewrite Em in Sp.
+    (* the sticky value lies strictly inside the cell *)
+    assert (V1 : (scaled k eu < mag z3)%Q).
+    { rewrite M3. apply (scaled_lt_gen _ _ _ _ (eu - 1)); try lia. replace (eu - (eu - 1)) with 1 by lia.
+      rewrite Z.sub_diag, Z.pow_0_r, Z.pow_1_r. lia. }
+    assert (V2 : (mag z3 < scaled (k + 1) eu)%Q).
+    { rewrite M3. apply (scaled_lt_gen _ _ _ _ (eu - 1)); try lia. replace (eu - (eu - 1)) with 1 by lia.
+      rewrite Z.sub_diag, Z.pow_0_r, Z.pow_1_r. lia. }
+    destruct (result_spec_RoundedTo p md (mag z3) (exp z + 2) r ltac:(lia)) as (Fr & Nr & [Rr Ar] & Ur); try assumption.
+    { lra. }
+    { lra. }
+    split; [exact Wr|]. split; [exact Fr|]. split; [exact Nr|]. split; [exact Pr|]. split; [exact Mr|].
+    split; [|split; [|split; [exact Ur|]]].
+    + right. exists (scaled k eu), (scaled (k + 1) eu).
+      split; [rewrite <- (scaled_0 eu); apply scaled_le_same; lia|].
+      split; [apply scaled_lt_same; lia|].
+      split; [rewrite Hsq; exact Blo'|]. split; [rewrite Hsq; exact Bhi|].
+      intros v Hv1 Hv2.
+      destruct (rounds_interval (dir_of md false) p k eu (mag z3) v (mag r) ltac:(lia) ltac:(lia) V1 V2 Hv1 Hv2 Rr)
+        as [Rv Cv].
+      split; [exact Rv|]. rewrite Ar. symmetry. apply acc_of_cmp. exact Cv.
+    + apply (rounds_ge md false p (mag z3)); [lia|exact Rr|lra].
+    + apply SetPrec_len in H. cbn [z4 mant with_mode] in H. unfold mdigits in *. cbv [DW] in *. clear - H L3 HQ. unfold Q, P in *. lia.
+Qed.
+
+(* ------------------------------------------------------------------ *)
+(* precision and mode through the operations (ported from the pre-fix proofs) *)
 
 Definition same_attrs (a b : Dec) : Prop := prec a = prec b /\ dmode a = dmode b.
 
@@ -57,15 +530,39 @@ Proof.
   - intros H; inversion H; subst; split; reflexivity.
 Qed.
 
+Lemma SetPrec_attrs z p z' : SetPrec z p = OkR z' -> 1 <= p <= MaxPrec -> prec z' = p /\ dmode z' = dmode z.
+Proof.
+  unfold SetPrec. intros H Hp. destruct (Z.eqb_spec p 0); [lia|].
+  destruct (Z.ltb_spec MaxPrec p); [lia|]. cbn [prec with_acc with_prec] in H.
+  destruct (p <? prec z).
+  - unfold of_opt in H. destruct (round _ 0) as [w|] eqn:Er; [|discriminate]. injection H as <-.
+    apply round_attrs in Er. destruct Er as [E1 E2]. split; [rewrite E1|rewrite E2]; reflexivity.
+  - injection H as <-. split; reflexivity.
+Qed.
+
 (* the final multiplication of sqrtInverse is the only step that writes the receiver *)
-Lemma sqrtInverse_attrs z z' : prec z <> 0 -> sqrtInverse z = OkR z' -> same_attrs z' z.
+Lemma sqrtInverse_attrs z x z' : prec z <> 0 -> sqrtInverse z x = OkR z' -> same_attrs z' z.
 Proof.
   intros Hp. unfold sqrtInverse, bindT.
-  destruct (sqrt_guess z); [|discriminate].
+  destruct (sqrt_guess x); [|discriminate].
   destruct (SetFloat64_fl _ _); try discriminate.
   destruct (newton _ _ _ _ _ _ _) as [t| |]; try discriminate.
   intros H. apply Mul_attrs in H. unfold mul_prec in H.
   destruct (Z.eqb_spec (prec z) 0); [contradiction|]. exact H.
+Qed.
+
+Lemma bindR_ok a f r : bindR a f = OkR r -> exists y, a = OkR y /\ f y = OkR r.
+Proof. destruct a; cbn [bindR]; try discriminate. intros H. eauto. Qed.
+Lemma bindT_ok z a f r : bindT z a f = OkR r -> exists y, a = OkR y /\ f y = OkR r.
+Proof. destruct a; cbn [bindT]; try discriminate. intros H. eauto. Qed.
+
+Lemma sqrtRound_attrs z x p md r : sqrtRound z x p md = OkR r -> 1 <= p <= MaxPrec ->
+  prec r = p /\ dmode r = md.
+Proof.
+  unfold sqrtRound. cbv zeta. intros H Hp.
+  apply bindR_ok in H as (z1 & _ & H). apply bindR_ok in H as (z2 & _ & H).
+  apply bindT_ok in H as (sq & _ & H). apply bindR_ok in H as (z3 & _ & H).
+  apply SetPrec_attrs in H; [|exact Hp]. exact H.
 Qed.
 
 (* documented precision of the receiver *)
@@ -73,7 +570,7 @@ Definition sqrt_prec (z x : Dec) : Z := if prec z =? 0 then prec x else prec z.
 
 Theorem Sqrt_attrs same z x z' :
   Sqrt same z x = OkR z' ->
-  (dform x = Ffinite -> sqrt_prec z x <> 0) ->
+  (dform x = Ffinite -> 1 <= sqrt_prec z x <= MaxPrec) ->
   prec z' = sqrt_prec z x /\ dmode z' = dmode z.
 Proof.
   unfold Sqrt, sqrt_prec. intros H Hp.
@@ -84,19 +581,11 @@ Proof.
   destruct (Sign x =? -1); [discriminate|].
   destruct (dform x) eqn:Fx; try (inversion H; subst; split; reflexivity).
   specialize (Hp eq_refl).
-  unfold bindR in H.
-  destruct (MantExp_mant same z1 x) as [z2| |]; try discriminate.
-  set (z3 := with_mode (with_prec z2 (prec z1)) (dmode z1)) in *.
-  set (z4 := if Z.rem (MantExp_exp x) 2 =? 1 then with_exp z3 (i32 (exp z3 + 1))
-             else if Z.rem (MantExp_exp x) 2 =? -1 then with_exp z3 (i32 (exp z3 - 1)) else z3) in *.
-  assert (A4 : same_attrs z4 z1).
-  { unfold z4. destruct (_ =? 1); [split; reflexivity|]. destruct (_ =? -1); split; reflexivity. }
-  destruct (sqrtInverse z4) as [z5| |] eqn:E5; try discriminate.
-  destruct A4 as [A4p A4m].
-  apply sqrtInverse_attrs in E5; [|rewrite A4p; exact Hp].
-  apply SetMantExp_self_attrs in H.
-  destruct E5 as [E5p E5m]. destruct H as [Hp' Hm'].
-  split; congruence.
+  apply bindR_ok in H as (z2 & _ & H). cbv zeta in H.
+  apply bindR_ok in H as (z5 & _ & H). apply bindR_ok in H as (z6 & E6 & H).
+  apply bindR_ok in H as (z7 & E7 & H). injection H as <-.
+  apply sqrtRound_attrs in E6; [|exact Hp]. apply SetMantExp_self_attrs in E7.
+  destruct E6 as [A1 A2], E7 as [B1 B2]. cbn [prec dmode with_acc]. split; congruence.
 Qed.
 
 (* ------------------------------------------------------------------ *)
@@ -127,132 +616,329 @@ Proof.
 Qed.
 
 (* ------------------------------------------------------------------ *)
-(* correct rounding of a square root, decided with integer squares only.
-   x = N * 10^ex (N > 0); candidate r = M * 10^q. *)
+(* the exponent split: Sqrt runs the approximation and the correction on
+   x0 = x's mantissa with exponent (exp x) rem 2, a value in [0.01, 10) with
+   x = x0 * 10^(2 * (exp x quot 2)), and re-attaches (exp x) quot 2 *)
 
-(* comparison of (a * 10^qa)^2 with N * 10^ex *)
-Definition cmp_sq (a qa N ex : Z) : comparison :=
-  let m := Z.min (2 * qa) ex in
-  (a * a * 10 ^ (2 * qa - m)) ?= (N * 10 ^ (ex - m)).
+Definition sqrt_x0 (z x : Dec) : Dec :=
+  mkDec (mant x) (Z.rem (exp x) 2) (sqrt_prec z x) (dmode z) (acc x) Ffinite false.
+(* the receiver handed to sqrtInverse: two guard digits, truncation *)
+Definition sqrt_zN (z x : Dec) : Dec :=
+  with_mode (with_prec (sqrt_x0 z x) (u32 (sqrt_prec z x + 2))) ToZero.
 
-Definition sqrt_rounds_b (md : mode) (p : Z) (N ex M q : Z) : bool :=
-  (10 ^ (p - 1) <=? M) && (M <? 10 ^ p) &&
-  match cmp_sq M q N ex with
-  | Eq => true                                   (* the exact root, in every mode *)
-  | Lt =>                                        (* r < sqrt x: r must be the floor and the mode must keep it *)
-      match cmp_sq (M + 1) q N ex with
-      | Gt =>
-          match dir_of md false with
-          | Down => true
-          | Up => false
-          | NearEven => match cmp_sq (2 * M + 1) q (4 * N) ex with Gt => true | Eq => Z.even M | Lt => false end
-          | NearAway => match cmp_sq (2 * M + 1) q (4 * N) ex with Gt => true | _ => false end
-          end
-      | _ => false
-      end
-  | Gt =>                                        (* r > sqrt x: the p-digit predecessor must be below the root *)
-      let '(M', q') := if M =? 10 ^ (p - 1) then (10 ^ p - 1, q - 1) else (M - 1, q) in
-      match cmp_sq M' q' N ex with
-      | Lt =>
-          let '(h, qh) := if M =? 10 ^ (p - 1) then (2 * 10 ^ p - 1, q - 1) else (2 * M - 1, q) in   (* 2 * midpoint *)
-          match dir_of md false with
-          | Down => false
-          | Up => true
-          | NearEven => match cmp_sq h qh (4 * N) ex with Lt => true | Eq => Z.even M | Gt => false end
-          | NearAway => match cmp_sq h qh (4 * N) ex with Gt => false | _ => true end
-          end
-      | _ => false
-      end
-  end.
-
-(* the predicate applied to a model result *)
-Definition sqrt_result_ok (md : mode) (x r : Dec) : bool :=
-  let p := prec r in
-  let dr := mdigits (mant r) in
-  let M := if p <=? dr then val (mant r) / 10 ^ (dr - p) else val (mant r) * 10 ^ (p - dr) in
-  sqrt_rounds_b md p (val (mant x)) (exp x - mdigits (mant x)) M (exp r - p).
-
-(* finding K1: 30 digits, ToNearestEven, x = 773288910932290629180064891113.1 *)
-Definition k1_z : Dec := mkDec [] 0 30 ToNearestEven Exact Fzero false.
-Definition k1_x : Dec :=
-  mkDec [8006489111310000000; 7732889109322906291] 30 31 ToNearestEven Exact Ffinite false.
-
-Definition k1_r : Dec := Eval vm_compute in ores_get (Sqrt false k1_z k1_x).
-
-Theorem Sqrt_not_correctly_rounded :
-  wf_b k1_x = true /\ Sqrt false k1_z k1_x = OkR k1_r /\ wf_b k1_r = true /\
-  dform k1_r = Ffinite /\ prec k1_r = 30 /\ sqrt_result_ok ToNearestEven k1_x k1_r = false.
-Proof. vm_compute. repeat split. Qed.
-
-(* ------------------------------------------------------------------ *)
-(* the exponent split: Sqrt runs sqrtInverse on x's mantissa with the exponent
-   b rem 2 (so 0.01 <= value < 10) and re-attaches b quot 2 *)
-From Coq Require Import QArith Lqa.
-From Dec Require Import Base.WordsProofs Base.QPow L3.CmpProofs.
-
-Theorem Sqrt_exponent same z x :
-  WF x -> dform x = Ffinite -> neg x = false -> (same = true -> z = x) ->
-  exists z4,
-    Sqrt same z x = bindR (sqrtInverse z4) (fun r => SetMantExp true r r (Z.quot (exp x) 2)) /\
-    mant z4 = mant x /\ exp z4 = Z.rem (exp x) 2 /\ dform z4 = Ffinite /\ neg z4 = false /\
-    prec z4 = sqrt_prec z x /\ dmode z4 = dmode z /\
-    (mag x == mag z4 * Qpow10 (2 * Z.quot (exp x) 2))%Q /\
-    (scaled 1 (-2) <= mag z4)%Q /\ (mag z4 < scaled 1 1)%Q.
+Theorem Sqrt_unfold same z x :
+  dform x = Ffinite -> neg x = false -> (same = true -> z = x) ->
+  Sqrt same z x =
+    bindR (sqrtInverse (sqrt_zN z x) (sqrt_x0 z x)) (fun z1 =>
+    bindR (sqrtRound z1 (sqrt_x0 z x) (sqrt_prec z x) (dmode z)) (fun z2 =>
+    bindR (SetMantExp true z2 z2 (Z.quot (exp x) 2)) (fun z3 => OkR (with_acc z3 (acc z2))))).
 Proof.
-  intros Wx Fx Nx Hsame.
-  pose proof (WF_finite x Wx Fx) as Hx.
-  set (b := exp x).
-  pose proof (Z.quot_rem' b 2) as QR.
-  pose proof (Z.rem_bound_abs b 2 ltac:(lia)) as RB.
-  set (r := Z.rem b 2) in *.
+  intros Fx Nx Hsame.
+  set (b := exp x). set (r := Z.rem b 2).
+  pose proof (Z.rem_bound_abs b 2 ltac:(lia)) as RB. fold r in RB.
   set (z1 := if prec z =? 0 then with_prec z (prec x) else z).
-  set (z4 := mkDec (mant x) r (prec z1) (dmode z1) (acc x) Ffinite false).
-  exists z4.
   assert (P1 : prec z1 = sqrt_prec z x /\ dmode z1 = dmode z).
   { unfold z1, sqrt_prec. destruct (prec z =? 0); split; reflexivity. }
   destruct P1 as [P1 M1].
+  unfold Sqrt, Sign. rewrite Fx, Nx. cbn [Z.eqb]. fold z1. unfold MantExp_exp. rewrite Fx. fold b. fold r.
+  assert (E : MantExp_mant same z1 x =
+              OkR (mkDec (mant x) 0 (prec x) (dmode x) (acc x) Ffinite false)).
+  { unfold MantExp_mant, Copy. destruct same.
+    - specialize (Hsame eq_refl). subst z. unfold z1.
+      destruct (prec x =? 0); cbn [dform with_prec]; rewrite Fx; cbn; rewrite <- Nx, <- Fx; destruct x; reflexivity.
+    - rewrite Fx, Nx. reflexivity. }
+  rewrite E. cbn [bindR]. cbv zeta.
+  assert (E4 : (let z0 := with_mode (with_prec (mkDec (mant x) 0 (prec x) (dmode x) (acc x) Ffinite false) (prec z1)) (dmode z1) in
+                if r =? 1 then with_exp z0 (i32 (exp z0 + 1)) else if r =? -1 then with_exp z0 (i32 (exp z0 - 1)) else z0)
+               = sqrt_x0 z x).
+  { cbv zeta. unfold sqrt_x0. fold b. fold r. rewrite <- P1, <- M1.
+    destruct (Z.eqb_spec r 1) as [->|]; [reflexivity|]. destruct (Z.eqb_spec r (-1)) as [->|]; [reflexivity|].
+    replace r with 0 by lia. reflexivity. }
+  cbv zeta in E4. rewrite E4. rewrite P1, M1. reflexivity.
+Qed.
+
+Lemma sqrt_x0_facts z x : WF x -> dform x = Ffinite ->
+  WF (with_prec (sqrt_x0 z x) (prec x)) /\
+  (mag x == mag (sqrt_x0 z x) * Qpow10 (2 * Z.quot (exp x) 2))%Q /\
+  (scaled 1 (-2) <= mag (sqrt_x0 z x))%Q /\ (mag (sqrt_x0 z x) < scaled 1 1)%Q.
+Proof.
+  intros Wx Fx. pose proof (WF_finite x Wx Fx) as Hx.
+  set (b := exp x). pose proof (Z.quot_rem' b 2) as QR.
+  pose proof (Z.rem_bound_abs b 2 ltac:(lia)) as RB. set (r := Z.rem b 2) in *.
+  assert (Hz4 : WFfin (with_prec (sqrt_x0 z x) (prec x))).
+  { destruct Hx as [Hne Hok Htop Hprec Hexp Htail]. constructor; cbn [mant prec exp with_prec sqrt_x0]; try assumption.
+    fold b. fold r. unfold MinExp, MaxExp. lia. }
   split.
-  - unfold Sqrt, Sign. rewrite Fx, Nx. cbn [Z.eqb]. fold z1. unfold MantExp_exp. rewrite Fx. fold b. fold r.
-    assert (E : MantExp_mant same z1 x =
-                OkR (mkDec (mant x) 0 (prec x) (dmode x) (acc x) Ffinite false)).
-    { unfold MantExp_mant, Copy. destruct same.
-      - specialize (Hsame eq_refl). subst z. unfold z1.
-        destruct (prec x =? 0); cbn [dform with_prec]; rewrite Fx; cbn; rewrite <- Nx, <- Fx; destruct x; reflexivity.
-      - rewrite Fx, Nx. reflexivity. }
-    rewrite E. cbn [bindR].
-    assert (E4 : (let z0 := with_mode (with_prec (mkDec (mant x) 0 (prec x) (dmode x) (acc x) Ffinite false) (prec z1)) (dmode z1) in
-                  if r =? 1 then with_exp z0 (i32 (exp z0 + 1)) else if r =? -1 then with_exp z0 (i32 (exp z0 - 1)) else z0) = z4).
-    { cbv zeta. unfold z4.
-      destruct (Z.eqb_spec r 1) as [->|]; [reflexivity|]. destruct (Z.eqb_spec r (-1)) as [->|]; [reflexivity|].
-      replace r with 0 by lia. reflexivity. }
-    cbv zeta in E4. rewrite E4. reflexivity.
-  - split; [reflexivity|]. split; [reflexivity|]. split; [reflexivity|]. split; [reflexivity|].
-    split; [exact P1|]. split; [exact M1|].
-    assert (Hz4 : WFfin (with_prec (with_exp x r) (prec x))).
-    { destruct Hx as [Hne Hok Htop Hprec Hexp Htail]. constructor; cbn [mant prec exp with_prec with_exp]; try assumption.
-      unfold MinExp, MaxExp. lia. }
-    pose proof (mag_bounds _ Hz4) as [Blo Bhi].
-    assert (Em : mag (with_prec (with_exp x r) (prec x)) = mag z4) by reflexivity.
-    rewrite Em in Blo, Bhi. cbn [exp with_prec with_exp] in Blo, Bhi.
+  - destruct Hz4 as [Hne Hok Htop Hprec Hexp Htail].
+    apply WF_intro; cbn [dform with_prec sqrt_x0]; try assumption; reflexivity.
+  - pose proof (mag_bounds _ Hz4) as [Blo Bhi].
+    assert (Em : mag (with_prec (sqrt_x0 z x) (prec x)) = mag (sqrt_x0 z x)) by reflexivity.
+    rewrite Em in Blo, Bhi. cbn [exp with_prec sqrt_x0] in Blo, Bhi. fold b in Blo, Bhi. fold r in Blo, Bhi.
     split; [|split].
-    + unfold mag. cbn [mant exp z4]. fold b. unfold scaled.
+    + unfold mag. cbn [mant exp sqrt_x0]. fold b. fold r. unfold scaled.
       replace (b - mdigits (mant x)) with ((r - mdigits (mant x)) + 2 * Z.quot b 2) by lia.
       rewrite Qpow10_add. ring.
     + apply Qle_trans with (scaled 1 (r - 1)); [apply scaled1_le; lia|exact Blo].
     + apply Qlt_le_trans with (scaled 1 r); [exact Bhi|apply scaled1_le; lia].
 Qed.
 
-(* K1 on a perfect square: Sqrt(9) into a 4-digit ToZero receiver is 2.999, and
-   into a 34-digit ToPositiveInf receiver 3.000000000000000000000000000000001 *)
-Definition nine : Dec := mkDec [9000000000000000000] 1 1 ToNearestEven Exact Ffinite false.
-Definition k1_sq_r : Dec := Eval vm_compute in ores_get (Sqrt false (mkDec [] 0 4 ToZero Exact Fzero false) nine).
-Definition k1_sq_r' : Dec := Eval vm_compute in ores_get (Sqrt false (mkDec [] 0 34 ToPositiveInf Exact Fzero false) nine).
+(* ------------------------------------------------------------------ *)
+(* the operand's precision is irrelevant to sqrtRound (it is only compared) *)
+Lemma sqrt_down_xprec q fuel psq ulp x : forall z,
+  sqrt_down fuel psq z (with_prec x q) ulp = sqrt_down fuel psq z x ulp.
+Proof.
+  induction fuel as [|fuel IH]; intros z; [reflexivity|]. cbn [sqrt_down].
+  destruct (Mul (tmpDec psq) z z) as [sq| |]; cbn [bindT]; try reflexivity.
+  change (Cmp sq (with_prec x q)) with (Cmp sq x).
+  destruct (Cmp sq x =? 1); [|reflexivity].
+  destruct (Sub true false z z ulp) as [z'| |]; cbn [bindR]; auto.
+Qed.
 
-Theorem Sqrt_perfect_square_not_exact :
-  Sqrt false (mkDec [] 0 4 ToZero Exact Fzero false) nine = OkR k1_sq_r /\
-  mant k1_sq_r = [2999000000000000000] /\ exp k1_sq_r = 1 /\
-  sqrt_result_ok ToZero nine k1_sq_r = false /\
-  Sqrt false (mkDec [] 0 34 ToPositiveInf Exact Fzero false) nine = OkR k1_sq_r' /\
-  mant k1_sq_r' = [10000; 3000000000000000000] /\ exp k1_sq_r' = 1 /\ prec k1_sq_r' = 34 /\
-  sqrt_result_ok ToPositiveInf nine k1_sq_r' = false.
-Proof. vm_compute. repeat split. Qed.
+Lemma sqrt_up_xprec q fuel psq pt ulp x : forall z,
+  sqrt_up fuel psq pt z (with_prec x q) ulp = sqrt_up fuel psq pt z x ulp.
+Proof.
+  induction fuel as [|fuel IH]; intros z; [reflexivity|]. cbn [sqrt_up].
+  destruct (AddD false false (tmpDec pt) z ulp) as [t| |]; cbn [bindT]; try reflexivity.
+  destruct (Mul (tmpDec psq) t t) as [sq| |]; cbn [bindT]; try reflexivity.
+  change (Cmp sq (with_prec x q)) with (Cmp sq x).
+  destruct (Cmp sq x <=? 0); [|reflexivity].
+  destruct (Set_ false z t) as [z'| |]; cbn [bindR]; auto.
+Qed.
+
+Lemma sqrtRound_xprec q z x p md : sqrtRound z (with_prec x q) p md = sqrtRound z x p md.
+Proof.
+  unfold sqrtRound. cbv zeta. rewrite sqrt_down_xprec.
+  destruct (sqrt_down _ _ _ x _) as [z1| |]; cbn [bindR]; [|reflexivity|reflexivity].
+  rewrite sqrt_up_xprec. reflexivity.
+Qed.
+
+(* ------------------------------------------------------------------ *)
+(* storing a value that is already a p-digit decimal is exact *)
+Lemma result_spec_repr p md v z' : 1 <= p -> RoundsDir (dir_of md false) p v v ->
+  (scaled 1 (MinExp - 1) <= v)%Q -> (v < scaled 1 MaxExp)%Q ->
+  result_spec p md false v z' -> dform z' = Ffinite /\ (mag z' == v)%Q /\ neg z' = false.
+Proof.
+  intros Hp HR L1 L2 [Hn H].
+  destruct (Qlt_le_dec v (scaled 1 (MinExp - 1))) as [C|_]; [exfalso; lra|].
+  destruct H as (r & HR' & H).
+  assert (Er : (r == v)%Q) by (apply (RoundsDir_unique (dir_of md false) p v); assumption).
+  destruct (Qlt_le_dec r (scaled 1 MaxExp)) as [_|C]; [|exfalso; lra].
+  destruct H as (Hf & Hm & _). split; [exact Hf|]. split; [rewrite Hm; exact Er|exact Hn].
+Qed.
+
+Lemma WF_with_acc a c : WF a -> WF (with_acc a c).
+Proof. unfold WF, wf_b. cbn [with_acc prec dform mant exp]. auto. Qed.
+
+(* ------------------------------------------------------------------ *)
+(* sqrt(x * 100^h) = sqrt(x) * 10^h at the level of the specification *)
+Lemma RoundedTo_scale md p v r0 r h :
+  RoundedTo md p v r0 -> (mag r == mag r0 * Qpow10 h)%Q -> acc r = acc r0 ->
+  RoundedTo md p (v * Qpow10 h) r.
+Proof.
+  intros [HR HA] Hm Ha. split.
+  - unfold Rounds in *. eapply RoundsDir_ext; [reflexivity|symmetry; exact Hm|].
+    apply RoundsDir_scale. exact HR.
+  - rewrite Ha, HA. unfold acc_of. rewrite Hm.
+    rewrite (Qcompare_mult_pos_r (mag r0) v (Qpow10 h) (Qpow10_pos h)). reflexivity.
+Qed.
+
+Lemma RoundedTo_ext md p v v' r : (v == v')%Q -> RoundedTo md p v r -> RoundedTo md p v' r.
+Proof.
+  intros Hv [HR HA]. split.
+  - unfold Rounds in *. eapply RoundsDir_ext; [exact Hv|reflexivity|exact HR].
+  - rewrite HA. apply acc_of_ext; [reflexivity|exact Hv].
+Qed.
+
+Lemma IsSqrtRounding_scale md p xq xq' r0 r h :
+  IsSqrtRounding md p xq r0 -> (mag r == mag r0 * Qpow10 h)%Q -> acc r = acc r0 ->
+  (xq' == xq * Qpow10 (2 * h))%Q ->
+  IsSqrtRounding md p xq' r.
+Proof.
+  intros H Hm Ha Hx.
+  pose proof (Qpow10_pos h) as Hc. set (c := Qpow10 h) in *.
+  assert (Ecc : (Qpow10 (2 * h) == c * c)%Q).
+  { replace (2 * h) with (h + h) by lia. apply Qpow10_add. }
+  assert (Hcc : (0 < c * c)%Q) by (apply Qmult_lt_0_compat; exact Hc).
+  set (c' := Qpow10 (- h)).
+  assert (Hc' : (0 < c')%Q) by apply Qpow10_pos.
+  assert (E1 : (c * c' == 1)%Q).
+  { unfold c, c'. rewrite <- Qpow10_add. replace (h + - h) with 0 by lia. reflexivity. }
+  destruct H as [(v & Hv0 & Hvv & HR)|(lo & hi & Hlo0 & Hlh & Hl & Hh & HR)].
+  - left. exists (v * c)%Q. split; [apply Qmult_le_0_compat; lra|]. split.
+    + rewrite Hx, Ecc, <- Hvv. ring.
+    + apply (RoundedTo_scale md p v r0 r h); assumption.
+  - right. exists (lo * c)%Q, (hi * c)%Q.
+    split; [apply Qmult_le_0_compat; lra|].
+    split; [apply Qmult_lt_r; assumption|].
+    split; [|split].
+    + rewrite Hx, Ecc. setoid_replace (lo * c * (lo * c))%Q with (lo * lo * (c * c))%Q by ring.
+      apply Qmult_lt_r; assumption.
+    + rewrite Hx, Ecc. setoid_replace (hi * c * (hi * c))%Q with (hi * hi * (c * c))%Q by ring.
+      apply Qmult_lt_r; assumption.
+    + intros v Hv1 Hv2.
+      assert (Ev : (v == v * c' * c)%Q).
+      { setoid_replace (v * c' * c)%Q with (v * (c * c'))%Q by ring. rewrite E1. ring. }
+      apply (RoundedTo_ext md p (v * c' * c)%Q v); [symmetry; exact Ev|].
+      apply (RoundedTo_scale md p (v * c')%Q r0 r h); try assumption.
+      apply HR.
+      * setoid_replace lo with (lo * c * c')%Q by (setoid_replace (lo * c * c')%Q with (lo * (c * c'))%Q by ring; rewrite E1; ring).
+        apply Qmult_lt_r; assumption.
+      * setoid_replace hi with (hi * c * c')%Q by (setoid_replace (hi * c * c')%Q with (hi * (c * c'))%Q by ring; rewrite E1; ring).
+        apply Qmult_lt_r; assumption.
+Qed.
+
+Lemma scaled1_mul a h : (scaled 1 a * Qpow10 h == scaled 1 (a + h))%Q.
+Proof. unfold scaled. rewrite Qpow10_add. ring. Qed.
+
+(* ------------------------------------------------------------------ *)
+(* the main theorem, relative to a sanity condition on the Newton stage *)
+
+(* what the correction step needs from the approximation: a canonical positive
+   finite Decimal, not longer than its precision plus a word, whose exponent is
+   at most 1 (the root of a value in [0.01, 10) is below 3.17) and not absurdly
+   small.  Nothing about its accuracy. *)
+Definition ApproxOK (z1 : Dec) : Prop :=
+  WF z1 /\ dform z1 = Ffinite /\ neg z1 = false /\
+  mdigits (mant z1) <= prec z1 + 18 /\ - 1000000 <= exp z1 <= 1.
+
+Theorem Sqrt_correct_partial same z x r :
+  WF x -> dform x = Ffinite -> neg x = false -> (same = true -> z = x) ->
+  0 <= prec z -> sqrt_prec z x <= 1000000000 ->
+  (forall z1, sqrtInverse (sqrt_zN z x) (sqrt_x0 z x) = OkR z1 -> ApproxOK z1) ->
+  Sqrt same z x = OkR r ->
+  WF r /\ dform r = Ffinite /\ neg r = false /\
+  prec r = sqrt_prec z x /\ dmode r = dmode z /\
+  IsSqrtRounding (dmode z) (sqrt_prec z x) (mag x) r.
+Proof.
+  intros Wx Fx Nx Hsame Pz0 Pmax HN H.
+  pose proof (WF_finite x Wx Fx) as Hx. pose proof Hx as [_ _ _ Hpx Hex _].
+  set (p := sqrt_prec z x) in *. set (md := dmode z) in *.
+  assert (Hp : 1 <= p <= 1000000000).
+  { split; [|exact Pmax]. unfold p, sqrt_prec. destruct (Z.eqb_spec (prec z) 0); lia. }
+  rewrite (Sqrt_unfold same z x Fx Nx Hsame) in H. fold p md in H.
+  set (x0 := sqrt_x0 z x) in *. set (zN := sqrt_zN z x) in *.
+  set (h := Z.quot (exp x) 2) in *.
+  apply bindR_ok in H as (z1 & E1 & H). apply bindR_ok in H as (r0 & E2 & H).
+  apply bindR_ok in H as (r' & E3 & H). injection H as <-.
+  destruct (HN z1 E1) as (W1 & F1 & N1 & L1 & X1).
+  assert (PN : prec zN = p + 2).
+  { unfold zN, sqrt_zN. cbn [prec with_mode with_prec]. fold p. apply u32_small. lia. }
+  destruct (sqrtInverse_attrs zN x0 z1 ltac:(rewrite PN; lia) E1) as [P1 M1].
+  rewrite PN in P1.
+  destruct (sqrt_x0_facts z x Wx Fx) as (Wx0 & Ex0 & Blo & Bhi). fold x0 h in Wx0, Ex0, Blo, Bhi.
+  rewrite <- (sqrtRound_xprec (prec x)) in E2.
+  assert (Hroot : (scaled 1 (2 * (exp z1 - 2)) <= mag (with_prec x0 (prec x)))%Q).
+  { assert (Em : mag (with_prec x0 (prec x)) = mag x0) by reflexivity. rewrite Em.
+    apply Qle_trans with (scaled 1 (-2)); [apply scaled1_le; lia|exact Blo]. }
+  destruct (sqrtRound_correct z1 (with_prec x0 (prec x)) p md r0 W1 F1 N1 P1 L1 Hp ltac:(lia) Wx0
+              eq_refl eq_refl Hroot E2) as (Wr0 & Fr0 & Nr0 & Pr0 & Mr0 & HS & Glo & Ghi & Lr0).
+  assert (Em : mag (with_prec x0 (prec x)) = mag x0) by reflexivity. rewrite Em in HS. clear Em.
+  (* re-attach the halved exponent *)
+  destruct (SetMantExp_correct true r0 r0 h Wr0 Fr0 ltac:(clear - Lr0 Hp; lia) ltac:(reflexivity))
+    as (r'' & E3' & Sp & Pr' & Mr' & Wr').
+  rewrite E3 in E3'. injection E3' as <-. rewrite Pr0, Mr0, Nr0 in *.
+  assert (Hh : - 1073741824 <= h <= 1073741824).
+  { unfold h, MinExp, MaxExp in *. clear - Hex. pose proof (Z.quot_rem' (exp x) 2).
+    pose proof (Z.rem_bound_abs (exp x) 2 ltac:(lia)). lia. }
+  assert (V1 : (scaled 1 (MinExp - 1) <= mag r0 * Qpow10 h)%Q).
+  { apply Qle_trans with (scaled 1 (exp z1 - 2) * Qpow10 h)%Q.
+    - rewrite scaled1_mul. apply scaled1_le. unfold MinExp. lia.
+    - apply Qmult_le_r; [apply Qpow10_pos|exact Glo]. }
+  assert (V2 : (mag r0 * Qpow10 h < scaled 1 MaxExp)%Q).
+  { apply Qle_lt_trans with (scaled 1 (exp z1 + 2) * Qpow10 h)%Q.
+    - apply Qmult_le_r; [apply Qpow10_pos|exact Ghi].
+    - rewrite scaled1_mul. apply (scaled_lt_gen _ _ _ _ (exp z1 + 2 + h)); try (unfold MaxExp; lia).
+      rewrite Z.sub_diag, Z.pow_0_r.
+      assert (1 < 10 ^ (MaxExp - (exp z1 + 2 + h))) by (apply Z.pow_gt_1; unfold MaxExp; lia). lia. }
+  assert (HR : RoundsDir (dir_of md false) p (mag r0 * Qpow10 h) (mag r0 * Qpow10 h)).
+  { apply RoundsDir_scale. apply repr_rounds; [apply WF_finite; assumption|lia]. }
+  destruct (result_spec_repr p md _ r' ltac:(lia) HR V1 V2 Sp) as (Fr' & Mr'' & Nr').
+  set (r := with_acc r' (acc r0)).
+  split; [apply WF_with_acc; exact Wr'|]. split; [exact Fr'|]. split; [exact Nr'|].
+  split; [exact Pr'|]. split; [exact Mr'|].
+  apply (IsSqrtRounding_scale md p (mag x0) (mag x) r0 r h HS); [exact Mr''|reflexivity|exact Ex0].
+Qed.
+
+(* ------------------------------------------------------------------ *)
+(* consequences through squares: the accuracy is the sign of (r^2 - x) *)
+Lemma sq_le_mono a b : (0 <= a)%Q -> (a <= b)%Q -> (a * a <= b * b)%Q.
+Proof. intros. nra. Qed.
+Lemma sq_lt_mono a b : (0 <= a)%Q -> (a < b)%Q -> (a * a < b * b)%Q.
+Proof. intros. nra. Qed.
+
+Theorem IsSqrtRounding_accuracy md p xq r : 1 <= p ->
+  IsSqrtRounding md p xq r ->
+  match acc r with
+  | Below => (mag r * mag r < xq)%Q
+  | Exact => (mag r * mag r == xq)%Q
+  | Above => (xq < mag r * mag r)%Q
+  end.
+Proof.
+  intros Hp1.
+  assert (Hpos : forall v, Rounds md false p v (mag r) -> (0 < v)%Q /\ (0 < mag r)%Q).
+  { intros v HR. destruct (RoundsDir_cases _ _ _ _ HR) as (M & e & (HM & Hlo & Hhi) & Hr).
+    assert (0 < 10 ^ (p - 1)) by (apply pow10_pos; lia).
+    assert (L0 : (0 < scaled M e)%Q) by (apply scaled_pos; lia).
+    assert (L1 : (scaled M e < scaled (M + 1) e)%Q) by (apply scaled_lt_same; lia).
+    split; [lra|]. destruct Hr as [Hr|[_ Hr]]; rewrite Hr; lra. }
+  intros [(v & Hv0 & Hvv & HR & HA)|(lo & hi & Hlo0 & Hlh & Hl & Hh & HR)].
+  - destruct (Hpos v HR) as [Pv Pr]. rewrite HA. unfold acc_of.
+    destruct (mag r ?= v)%Q eqn:C.
+    + apply Qeq_alt in C. rewrite <- Hvv, C. reflexivity.
+    + apply Qlt_alt in C. rewrite <- Hvv. apply sq_lt_mono; lra.
+    + apply Qgt_alt in C. rewrite <- Hvv. apply sq_lt_mono; lra.
+  - set (m1 := ((2 # 3) * lo + (1 # 3) * hi)%Q). set (m2 := ((1 # 3) * lo + (2 # 3) * hi)%Q).
+    assert (A1 : (lo < m1)%Q /\ (m1 < m2)%Q /\ (m2 < hi)%Q) by (unfold m1, m2; repeat split; lra).
+    destruct A1 as (A1 & A2 & A3).
+    destruct (HR m1 A1 ltac:(lra)) as [R1 C1]. destruct (HR m2 ltac:(lra) A3) as [R2 C2].
+    destruct (Hpos m1 R1) as [_ Pr].
+    unfold acc_of in C1, C2.
+    destruct (acc r) eqn:Ea.
+    + (* Below: r < every v in the cell, so r <= lo *)
+      assert (X : (mag r <= lo)%Q).
+      { destruct (Qlt_le_dec lo (mag r)) as [Y|Y]; [exfalso|exact Y].
+        destruct (Qlt_le_dec (mag r) hi) as [Z|Z].
+        - destruct (HR (mag r) Y Z) as [_ C]. unfold acc_of in C. rewrite (Qeq_cmp (mag r) (mag r)) in C by reflexivity. congruence.
+        - assert (Q : (m1 < mag r)%Q) by lra. rewrite (Qgt_cmp _ _ Q) in C1. discriminate. }
+      apply Qle_lt_trans with (lo * lo)%Q; [apply sq_le_mono; lra|exact Hl].
+    + (* Exact at two different points is impossible *)
+      exfalso.
+      destruct (mag r ?= m1)%Q eqn:D1; try discriminate. destruct (mag r ?= m2)%Q eqn:D2; try discriminate.
+      apply Qeq_alt in D1, D2. lra.
+    + assert (X : (hi <= mag r)%Q).
+      { destruct (Qlt_le_dec (mag r) hi) as [Y|Y]; [exfalso|exact Y].
+        destruct (Qlt_le_dec lo (mag r)) as [Z|Z].
+        - destruct (HR (mag r) Z Y) as [_ C]. unfold acc_of in C. rewrite (Qeq_cmp (mag r) (mag r)) in C by reflexivity. congruence.
+        - assert (Q : (mag r < m2)%Q) by lra. rewrite (Qlt_cmp _ _ Q) in C2. discriminate. }
+      apply Qlt_le_trans with (hi * hi)%Q; [exact Hh|apply sq_le_mono; lra].
+Qed.
+
+(* ------------------------------------------------------------------ *)
+(* concrete values for the non-vacuity examples of Props/C05.v *)
+Definition ex_z5 : Dec := mkDec [] 0 5 ToNearestEven Exact Fzero false.
+Definition ex_four : Dec := mkDec [4000000000000000000] 1 1 ToZero Exact Ffinite false.
+Definition ex_two : Dec := mkDec [2000000000000000000] 1 1 ToZero Exact Ffinite false.
+Definition ex_nine : Dec := mkDec [9000000000000000000] 1 1 ToNearestEven Exact Ffinite false.
+(* the witnesses of finding K1 on the unrepaired code *)
+Definition ex_k1_z : Dec := mkDec [] 0 30 ToNearestEven Exact Fzero false.
+Definition ex_k1_x : Dec :=
+  mkDec [8006489111310000000; 7732889109322906291] 30 31 ToNearestEven Exact Ffinite false.
+
+
+(* the hypothesis on the Newton stage holds by computation for sqrt 2 at 5
+   digits, hence the conclusion of Sqrt_correct_partial *)
+Lemma Sqrt_correct_instance :
+  exists r, Sqrt false ex_z5 ex_two = OkR r /\ IsSqrtRounding ToNearestEven 5 (mag ex_two) r.
+Proof.
+  destruct (Sqrt false ex_z5 ex_two) as [r| |] eqn:E; try (vm_compute in E; discriminate E).
+  exists r. split; [reflexivity|].
+  assert (W : WF ex_two) by (vm_compute; reflexivity).
+  assert (S : false = true -> ex_z5 = ex_two) by (intros X; discriminate X).
+  assert (P0 : 0 <= prec ex_z5) by (vm_compute; intros X; discriminate X).
+  assert (P1 : sqrt_prec ex_z5 ex_two <= 1000000000) by (vm_compute; intros X; discriminate X).
+  assert (A : forall z1, sqrtInverse (sqrt_zN ex_z5 ex_two) (sqrt_x0 ex_z5 ex_two) = OkR z1 -> ApproxOK z1).
+  { intros z1 H. vm_compute in H. injection H as <-.
+    unfold ApproxOK. repeat split; try (vm_compute; reflexivity); vm_compute; intros X; discriminate X. }
+  exact (proj2 (proj2 (proj2 (proj2 (proj2
+    (Sqrt_correct_partial false ex_z5 ex_two r W eq_refl eq_refl S P0 P1 A E)))))).
+Qed.
